@@ -153,6 +153,9 @@ class C06(Check):
         'column type, so input-unchanged is always judged',
     ]
 
+    def hashseeds(self, tier, verif_seed):
+        return [verif_seed % 3]
+
     def layers(self, tier):
         return [
             ('one', 'one constraint on one field, per-constraint flags on, no '
@@ -347,9 +350,8 @@ class C06(Check):
                 return None
             who = 'detect' if ds == 'exc' else 'verify-only'
             e = dv if ds == 'exc' else vv
-            R.viol('%s-raises:%s:%s:%s:%s'
-                   % (who, type(e).__name__, kinds_sig[:40], famsig,
-                      self.exc_disc(e, opts, sink)),
+            R.viol('%s-raises:%s:%s' % (who, type(e).__name__,
+                                        self.exc_disc(e, opts, sink)),
                    'detection-agrees-with-verification-no-raise',
                    dict(detail, exception=repr(e)[:300]), sub)
             return None
@@ -513,7 +515,11 @@ class C06(Check):
         msg = str(e)
         if 'already exists' in msg:
             return 'column-name-collision'
-        return '%s:%s:%s' % (opts_sig(opts), sink or '-', msg[:30])
+        if 'Unordered Categoricals' in msg:
+            return 'unordered-categorical-compared-with-bound'
+        if "can't compare datetime.datetime to datetime.date" in msg:
+            return 'date-objects-compared-with-datetime-bound'
+        return msg[:40]
 
     def peek(self, path):
         try:
